@@ -6,7 +6,7 @@ Init == l = 1 /\ cnt = [events |-> 0, nontrivial |-> 0, walks |-> 0, applies |->
 Failed(e) == CASE e.ev = "walk" -> WalkFailed(e) [] e.ev = "apply" -> ApplyFailed(e) [] e.ev = "repl" -> ReplFailed(e)
 Next == /\ l <= Len(Trace)
         /\ LET e == Trace[l] IN
-           /\ \A x \in Failed(e) : PrintT(<<"VIOL", l, x>>)
+           /\ \A x \in Failed(e) \cup Reread(e) : PrintT(<<"VIOL", l, x>>)
            /\ cnt' = [cnt EXCEPT !.events = @ + 1,
                        !.walks = @ + (IF e.ev = "walk" THEN 1 ELSE 0), !.applies = @ + (IF e.ev = "apply" THEN 1 ELSE 0),
                        !.repls = @ + (IF e.ev = "repl" THEN 1 ELSE 0),
